@@ -28,6 +28,12 @@ def ref_rake(amount, cfg_rake, chip, any_board):
     """(raked, unraked) as documented for pokerkit.utilities.rake."""
     if not cfg_rake:
         return 0 * amount, amount
+    if cfg_rake[0] == 'flat':
+        _, drop, nfnd = cfg_rake
+        if nfnd and not any_board:
+            return 0 * amount, amount
+        raked = min(amount, drop)
+        return raked, amount - raked
     pct, cap, nfnd = cfg_rake
     if nfnd and not any_board:
         return 0 * amount, amount
